@@ -22,7 +22,9 @@ REGISTRATION = {
             "FindStop/TruncateStop executed on distinguishing inputs -> Generated/C14_Variant.lean -> tree_findstop_repaired by "
             "decide); consumer_schedule_independent, batch_mates_independent and disconnect_prefix say that the stream is a "
             "function of (pieces, stops, limit) only; cacheKeep_spec: at a stop string the cache keeps exactly the inputs of the "
-            "tokens streamed in full; cache_reslice_in_range: along every history the reslice seq.cache.Inputs[:tokenLen] is in "
+            "tokens streamed in full; cache_at_stop_is_streamed_tokens: for the whole run (scripts of non-empty pieces spelling a "
+            "prefix of valid UTF-8) the cache length at a stop is promptLen + the number of generated tokens lying entirely "
+            "within the streamed text; cache_reslice_in_range: along every history the reslice seq.cache.Inputs[:tokenLen] is in "
             "range (0 <= tokenLen <= inputs submitted so far). For the first-listed FindStop the multi-stop clause is false "
             "(finding F7, fixed in /repo; Lean witness) and proved under a guard. The model is compared exactly with the real "
             "functions of runner/common, with the real ollamarunner loop (NewSequence, LoadCacheSlot, processBatch, "
@@ -98,6 +100,9 @@ THEOREMS = [
     "OllamaVerif.C14.cacheLen_in_range",
     "OllamaVerif.C14.cache_reslice_in_range",
     "OllamaVerif.C14.cacheLenRun_isSome_iff",
+    "OllamaVerif.C14.cache_is_streamed_tokens",
+    "OllamaVerif.C14.cache_at_stop_is_streamed_tokens",
+    "OllamaVerif.C14.splitBack_whole",
 ]
 # Model variant the oracle is asked to run: 1 = first listed stop (finding F7, fixed in /repo 6e9857ebf), 0 = earliest
 # occurrence.  NOT a constant any more: decided on every run by executing the real FindStop (regenerate_variant), and
